@@ -2902,13 +2902,13 @@ fn equiv_case(case_seed: u64, rep: &mut Report) {
                     }
                 }
             }
-            (Err(_), Err(_)) => {
+            (Err(ea), Err(_)) => {
                 rep.count("both_rejected", 1);
                 // a multi-row INSERT applies the rows before the offending one; when the two sides may
                 // have stopped at different rows (the text side also stops at a negative literal) the
                 // twins cannot be compared any further
-                if matches!(&op, Op::Insert { rows, .. } if rows.len() > 1) && op.neg_position().is_some() {
-                    rep.count("programs_cut_short_after_violation", 1);
+                if matches!(&op, Op::Insert { rows, .. } if rows.len() > 1) && op.neg_position().is_some() && ea.contains("Unary(Neg") {
+                    rep.count("programs_cut_short", 1);
                     return;
                 }
             }
@@ -2922,7 +2922,7 @@ fn equiv_case(case_seed: u64, rep: &mut Report) {
                 // a multi-row INSERT is executed row by row by the router, so the text side may have
                 // applied a prefix of the rows before it failed: the twins cannot be re-synchronised
                 if matches!(&op, Op::Insert { rows, .. } if rows.len() > 1) {
-                    rep.count("programs_cut_short_after_violation", 1);
+                    rep.count("programs_cut_short", 1);
                     return;
                 }
                 // re-synchronise the twins: apply the direct call to the text-side engines as well
